@@ -210,3 +210,32 @@ func Weighted(s Source, weights []int, label string) int {
 	}
 	return len(weights) - 1
 }
+
+// HashSource is a deterministic pseudo-random source derived from a seed (no
+// state outside the value, no RNG of its own): used where a sub-check wants a
+// few fixed schedules per enumerated case rather than all of them.
+type HashSource struct {
+	Seed uint64
+	n    uint64
+}
+
+func (h *HashSource) Choose(n int, label string) int {
+	if n <= 1 {
+		return 0
+	}
+	h.n++
+	return int(Mix(h.Seed*0x9e3779b97f4a7c15+h.n) % uint64(n))
+}
+
+func (h *HashSource) Int(lo, hi int64, label string) int64 {
+	if lo >= hi {
+		return lo
+	}
+	h.n++
+	return lo + int64(Mix(h.Seed*0x9e3779b97f4a7c15+h.n)%uint64(hi-lo+1))
+}
+
+func (h *HashSource) Bits(label string) uint64 {
+	h.n++
+	return Mix(h.Seed*0x9e3779b97f4a7c15 + h.n)
+}
